@@ -1826,8 +1826,8 @@ def producer_roles(ctx):
         hit = [g for g in cands if pred(g)]
         named = [g for g in hit if g.name == prefer]
         return named[0] if named else (hit[0] if len(hit) == 1 else None)
-    deliver = one(lambda g: any(call_name(c) == "callback" for c in calls_in(g)) and not any(call_name(c) in ("callLater", "send_produce_request") for c in calls_in(g))
-                  and "called" in unparse(g.node), "_deliver_result")
+    deliver = one(lambda g: any(call_name(c) == "callback" for c in calls_in(g)) and not any(call_name(c) in ("callLater", "send_produce_request") for c in calls_in(g)),
+                  "_deliver_result")
     check_retry = one(lambda g: any(call_name(c) == "callLater" for c in calls_in(g)), "_check_retry_payloads")
     do_retry = one(lambda g: any(call_name(c) == "send_produce_request" for c in calls_in(g)), "_do_retry")
     return {"deliver": deliver, "check_retry": check_retry, "do_retry": do_retry}
